@@ -191,7 +191,10 @@ fn shared_inner(w: &mut World, before: &[Op], file: &FileSpec, sender: u16, betw
                 }
                 let stored_epoch = msg.as_ref().and_then(|x| x.epoch);
                 let invalidated = msg.as_ref().map(|x| x.state == mdk_storage_traits::messages::types::MessageState::EpochInvalidated).unwrap_or(false);
-                if stored_epoch != Some(sender_epoch) || invalidated {
+                // (the sender's own copy is filed at creation, under the sending epoch: when its
+                // echo comes back makes no difference, so the sender is only excused for a copy
+                // that a rollback invalidated)
+                if (stored_epoch != Some(sender_epoch) && m != s) || invalidated {
                     // listed: the epoch hint is the receiver's epoch at processing time (O4b)
                     if mode == Mode::Strict {
                         return Err(Failure::new("media:O4b-epoch-hint-is-the-receivers-epoch", format!("{who}: {e}; its copy of the announcement is filed under epoch {stored_epoch:?}")));
